@@ -18,8 +18,10 @@ package main
 
 import (
 	"fmt"
+	"os"
+	"runtime/pprof"
 	"sort"
-	"sync"
+	"sync/atomic"
 	"time"
 
 	"verif/vf"
@@ -29,10 +31,16 @@ func main() { vf.Main("C45", vf.Exploration, run) }
 
 func run(c *vf.Ctx) {
 	c.Rule("inputs: ALL byte strings of length <=2 (thorough <=3); for each seed object (keys of every kind, messages of every packet kind, armored blocks, cleartext messages, crafted session-key packets) " +
-		"EVERY truncation, at EVERY offset the substitutions {0x00,0x7F,0x80,0xC0,0xFF,b^1,b^0x80}, and for every top-level packet header the length rewrites {0,1,191,192,8383,8384,2^32-1} in 1-, 2- and 5-octet form, " +
+		"EVERY truncation, at EVERY offset the substitutions {0x00,0x7F,0x80,0xC0,0xFF,b^1,b^0x80} (armored / cleartext seeds also LF '=' '-' ':' ' '), and for every top-level packet header the length rewrites {0,1,191,192,8383,8384,2^32-1} in 1-, 2- and 5-octet form, " +
 		"partial-length headers {2^0,2^1,2^9,2^30} and old-format length types 0..3; each input goes to 11 entry-point variants; non-trivial = distinct (seed, mutation) pairs, resp. distinct short strings that are accepted or reach a packet parser; " +
 		"oracle: no panic, result or error, bodies reach EOF/error within 10^6 Read calls")
 	c.Assume("the prompt function gives up (returns an error) after 3 calls: ReadMessage is documented to call it forever otherwise; keyrings passed to ReadMessage/CheckDetachedSignature are trusted (fixture) keys; a CPU loop that performs no Read call would hang the run instead of being reported")
+	if pf := os.Getenv("VERIF_C45_PPROF"); pf != "" {
+		if f, err := os.Create(pf); err == nil {
+			pprof.StartCPUProfile(f)
+			defer pprof.StopCPUProfile()
+		}
+	}
 	e := newEnv(c)
 	if e == nil {
 		return
@@ -49,20 +57,25 @@ func run(c *vf.Ctx) {
 	e.report()
 }
 
-// tallies shared by the workers
+// tallies shared by the workers (one pair of atomic counters per entry point)
 type tally struct {
-	mu       sync.Mutex
-	perEntry map[string]int64
-	accepted map[string]int64
+	perEntry map[string]*atomic.Int64
+	accepted map[string]*atomic.Int64
+}
+
+func newTally() *tally {
+	t := &tally{perEntry: map[string]*atomic.Int64{}, accepted: map[string]*atomic.Int64{}}
+	for _, n := range entryNames {
+		t.perEntry[n], t.accepted[n] = new(atomic.Int64), new(atomic.Int64)
+	}
+	return t
 }
 
 func (t *tally) add(entry string, accepted bool) {
-	t.mu.Lock()
-	t.perEntry[entry]++
+	t.perEntry[entry].Add(1)
 	if accepted {
-		t.accepted[entry]++
+		t.accepted[entry].Add(1)
 	}
-	t.mu.Unlock()
 }
 
 func (e *env) report() {
@@ -73,7 +86,15 @@ func (e *env) report() {
 	sort.Strings(keys)
 	calls := map[string]string{}
 	for _, k := range keys {
-		calls[k] = fmt.Sprintf("%d calls, %d returned a value", e.t.perEntry[k], e.t.accepted[k])
+		calls[k] = fmt.Sprintf("%d calls, %d returned a value", e.t.perEntry[k].Load(), e.t.accepted[k].Load())
 	}
 	e.c.Set("entry_points", calls)
+	for _, k := range keys {
+		if e.t.accepted[k].Load() > 0 {
+			e.c.Outcome(k + ": returned a value (bodies drained to EOF or error)")
+		}
+		if e.t.perEntry[k].Load() > e.t.accepted[k].Load() {
+			e.c.Outcome(k + ": returned an error")
+		}
+	}
 }
